@@ -58,3 +58,8 @@ func Implies(a, b bool) bool        { return !a || b }
 func Ite(c bool, a, b int) int      { return a }
 func IteByte(c bool, a, b byte) byte { return a }
 func StrEq(a, b string) bool        { return a == b }
+
+// Blob store used by the codec stubs (BSON/JSON round trips are modelled as
+// the identity on the Go value).
+func BlobPut(v interface{}) []byte            { return nil }
+func BlobGet(data []byte, dst interface{}) bool { return false }
